@@ -91,7 +91,7 @@ def cases(tier, seed):
     # E2: every pair of mini associations on <=3 assets; once over the declared types, once over sub-types
     info = L.get_info("mini")
     for base in ([["A", "a", 1, {}], ["B", "b", 2, {}], ["C", "c", 3, {}], ["A", "a2", 4, {}], ["A1", "a3", 5, {}],
-                  ["B1", "b2", 6, {}]],
+                  ["B1", "b2", 6, {}], ["D", "d", 7, {}]],
                  [["A1", "a", 1, {}], ["B1", "b", 2, {}], ["C", "c", 3, {}], ["A", "a2", 4, {}]]):
         def ends(a):
             li = [i for i, x in enumerate(base) if info.is_sub(x[0], a["L"])]
@@ -103,7 +103,9 @@ def cases(tier, seed):
                     if a1 is a2 and (x1, y1) >= (x2, y2):
                         continue
                     used = sorted({x1, y1, x2, y2})
-                    if len(used) > (2 if len(base) > 4 else 3):
+                    # associations that share a field name (look-alike roles) are also tried on disjoint asset pairs
+                    lookalike = a1 is not a2 and ({a1["lf"], a1["rf"]} & {a2["lf"], a2["rf"]})
+                    if len(used) > (4 if lookalike else (2 if len(base) > 4 else 3)):
                         continue
                     idx = {u: n for n, u in enumerate(used)}
                     k += 1
